@@ -1,4 +1,244 @@
-"""Group records for inputs described by a regular expression (filled in with the C08 contracts)."""
+"""Assumed contract of the `re` engine on symbolic strings (DESIGN 2.8).
+
+A compiled pattern is translated (sre parse tree -> z3 regular expression) for the constructs below;
+anything else is Unsupported.  Contracts assumed:
+
+  p.fullmatch(s) is not None   <=>  s in L(p)
+  p.match(s) is not None       <=>  some prefix of s is in L(p)          (and then span() == (0, e) with
+                                    s[0:e] in L(p); WHICH such e the engine picks -- leftmost-priority,
+                                    not longest -- is not modelled: e is any admissible end)
+  a trailing '$' matches at the end of the string or before a final newline (re documentation).
+"""
+import re
+import re._parser as sre_parse
+import re._constants as sre_c
+
+import z3
+
+from . import sym as S
+from .sym import Sym, SInt, SBool, SStr, SBytes, Unsupported
+
+_SS = z3.StringSort()
+_RS = z3.ReSort(_SS)
+
+
+def _allchar():
+    return z3.AllChar(_RS)
+
+
+def _ch(code):
+    return z3.Re(z3.StringVal(chr(code)))
+
+
+_DIGIT = lambda: z3.Range('0', '9')
+_WORD = lambda: z3.Union(z3.Range('a', 'z'), z3.Range('A', 'Z'), z3.Range('0', '9'), z3.Re('_'))
+_SPACE = lambda: z3.Union(*[z3.Re(c) for c in ' \t\n\r\f\v'])
+
+
+def _category(cat, ascii_only):
+    if not ascii_only and cat in (sre_c.CATEGORY_DIGIT, sre_c.CATEGORY_WORD, sre_c.CATEGORY_SPACE,
+                                  sre_c.CATEGORY_NOT_DIGIT, sre_c.CATEGORY_NOT_WORD, sre_c.CATEGORY_NOT_SPACE):
+        # \d, \w, \s of str patterns also match non-ASCII characters: not modelled
+        raise Unsupported("unicode character category in a str pattern")
+    if cat == sre_c.CATEGORY_DIGIT:
+        return _DIGIT()
+    if cat == sre_c.CATEGORY_WORD:
+        return _WORD()
+    if cat == sre_c.CATEGORY_SPACE:
+        return _SPACE()
+    if cat == sre_c.CATEGORY_NOT_DIGIT:
+        return z3.Intersect(_allchar(), z3.Complement(_DIGIT()))
+    if cat == sre_c.CATEGORY_NOT_WORD:
+        return z3.Intersect(_allchar(), z3.Complement(_WORD()))
+    if cat == sre_c.CATEGORY_NOT_SPACE:
+        return z3.Intersect(_allchar(), z3.Complement(_SPACE()))
+    raise Unsupported("regex category %r" % (cat,))
+
+
+class Translated(object):
+    def __init__(self, regex, end_anchor, groups):
+        self.re = regex
+        self.end_anchor = end_anchor
+        self.groups = groups
+
+
+def _seq(items, flags, ascii_only, top):
+    parts = []
+    end_anchor = False
+    n = len(items)
+    for i, (op, av) in enumerate(items):
+        if op is sre_c.AT:
+            if av in (sre_c.AT_BEGINNING, sre_c.AT_BEGINNING_STRING) and i == 0 and top:
+                continue
+            if av is sre_c.AT_END and i == n - 1 and top:
+                end_anchor = 'dollar'
+                continue
+            if av is sre_c.AT_END_STRING and i == n - 1 and top:
+                end_anchor = 'Z'
+                continue
+            raise Unsupported("regex anchor %r in the middle of a pattern" % (av,))
+        parts.append(_node(op, av, flags, ascii_only))
+    if not parts:
+        r = z3.Re(z3.StringVal(''))
+    elif len(parts) == 1:
+        r = parts[0]
+    else:
+        r = z3.Concat(*parts)
+    return r, end_anchor
+
+
+def _node(op, av, flags, ascii_only):
+    if op is sre_c.LITERAL:
+        return _ch(av)
+    if op is sre_c.NOT_LITERAL:
+        return z3.Intersect(_allchar(), z3.Complement(_ch(av)))
+    if op is sre_c.ANY:
+        if flags & re.DOTALL:
+            return _allchar()
+        return z3.Intersect(_allchar(), z3.Complement(z3.Re('\n')))
+    if op is sre_c.IN:
+        negate = False
+        alts = []
+        for o, a in av:
+            if o is sre_c.NEGATE:
+                negate = True
+            elif o is sre_c.LITERAL:
+                alts.append(_ch(a))
+            elif o is sre_c.RANGE:
+                alts.append(z3.Range(chr(a[0]), chr(a[1])))
+            elif o is sre_c.CATEGORY:
+                alts.append(_category(a, ascii_only))
+            else:
+                raise Unsupported("regex set item %r" % (o,))
+        u = alts[0] if len(alts) == 1 else z3.Union(*alts)
+        if negate:
+            return z3.Intersect(_allchar(), z3.Complement(u))
+        return u
+    if op is sre_c.BRANCH:
+        alts = [_seq(list(b), flags, ascii_only, False)[0] for b in av[1]]
+        return alts[0] if len(alts) == 1 else z3.Union(*alts)
+    if op is sre_c.SUBPATTERN:
+        group, add_flags, del_flags, p = av
+        if add_flags or del_flags:
+            raise Unsupported("inline regex flags")
+        return _seq(list(p), flags, ascii_only, False)[0]
+    if op in (sre_c.MAX_REPEAT, sre_c.MIN_REPEAT):
+        lo, hi, p = av
+        inner = _seq(list(p), flags, ascii_only, False)[0]
+        if hi is sre_c.MAXREPEAT:
+            if lo == 0:
+                return z3.Star(inner)
+            if lo == 1:
+                return z3.Plus(inner)
+            return z3.Concat(z3.Loop(inner, lo, lo), z3.Star(inner))
+        if lo == 0 and hi == 1:
+            return z3.Option(inner)
+        return z3.Loop(inner, lo, hi)
+    if op is sre_c.CATEGORY:
+        return _category(av, ascii_only)
+    raise Unsupported("regex construct %r" % (op,))
+
+
+_cache = {}
+
+
+def translate(pat):
+    key = (pat.pattern, pat.flags)
+    if key in _cache:
+        return _cache[key]
+    flags = pat.flags
+    if flags & (re.IGNORECASE | re.MULTILINE | re.VERBOSE | re.LOCALE):
+        raise Unsupported("regex flags %r" % (flags,))
+    is_bytes = isinstance(pat.pattern, bytes)
+    tree = sre_parse.parse(pat.pattern, flags & ~re.UNICODE if is_bytes else flags)
+    ascii_only = is_bytes or bool(flags & re.ASCII)
+    r, end_anchor = _seq(list(tree), flags, ascii_only, True)
+    t = Translated(r, end_anchor, dict(pat.groupindex))
+    _cache[key] = t
+    return t
+
+
+def language(pat):
+    """z3 regex of the strings the pattern matches entirely (fullmatch)."""
+    t = translate(pat)
+    if t.end_anchor == 'dollar':
+        return z3.Concat(t.re, z3.Option(z3.Re('\n')))
+    return t.re
+
+
+class SymMatch(object):
+    """A match object on a symbolic subject; only its span is available."""
+    pytype = re.Match
+
+    def __init__(self, subject, end):
+        self.subject = subject
+        self.end_ = end
+
+    def __bool__(self):
+        return True
+
+    def span(self, g=0):
+        if g != 0:
+            raise Unsupported("group spans of a symbolic match")
+        return (0, self.end_)
+
+    def end(self, g=0):
+        return self.span(g)[1]
+
+    def start(self, g=0):
+        return 0
+
+    def group(self, *a):
+        raise Unsupported("groups of a symbolic match")
+
+    def groupdict(self, *a):
+        raise Unsupported("groups of a symbolic match")
+
+    def groups(self, *a):
+        raise Unsupported("groups of a symbolic match")
+
+
+def _subject(pat, s):
+    if not isinstance(s, SStr):
+        raise Unsupported("regex on %r" % (s,))
+    if isinstance(pat.pattern, bytes) != isinstance(s, SBytes):
+        raise TypeError("cannot use a %s pattern on a %s-like object" % (
+            'bytes' if isinstance(pat.pattern, bytes) else 'string', s.pytype.__name__))
+    return s
+
+
+def m_fullmatch(interp, pat, s, *a):
+    if a:
+        raise Unsupported("fullmatch with pos/endpos")
+    s = _subject(pat, s)
+    if interp.ctx.branch(z3.InRe(s.t, language(pat))):
+        return SymMatch(s, SInt(z3.Length(s.t)))
+    return None
+
+
+def m_match(interp, pat, s, *a):
+    if a:
+        raise Unsupported("match with pos/endpos")
+    s = _subject(pat, s)
+    t = translate(pat)
+    ctx = interp.ctx
+    if t.end_anchor:
+        # anchored at the end: a prefix match is a whole-string match (up to a final newline for '$')
+        if ctx.branch(z3.InRe(s.t, language(pat))):
+            n = z3.Length(s.t)
+            if t.end_anchor == 'dollar':
+                e = ctx.int('match_end', declare=False)
+                ctx.assume(z3.And(z3.Or(e.t == n, z3.And(e.t == n - 1, z3.SuffixOf(z3.StringVal('\n'), s.t))),
+                                  z3.InRe(z3.SubString(s.t, 0, e.t), t.re)))
+                return SymMatch(s, e)
+            return SymMatch(s, SInt(n))
+        return None
+    if ctx.branch(z3.InRe(s.t, z3.Concat(t.re, z3.Full(_RS)))):
+        ctx.note_overapprox("re.match: which admissible end the engine picks is not modelled")
+        e = ctx.int('match_end', declare=False)
+        ctx.assume(z3.And(e.t >= 0, e.t <= z3.Length(s.t), z3.InRe(z3.SubString(s.t, 0, e.t), t.re)))
+        return SymMatch(s, e)
+    return None
 
 
 class LexGroup(object):
